@@ -145,6 +145,9 @@ func (h *HarnessRun) runPath(s *Solver, wi workItem) (res PathResult) {
 			}
 		} else {
 			res.Outcome = "ok"
+			if len(x.knownHit) > 0 {
+				res.Outcome = "known"
+			}
 		}
 		for _, f := range x.fails {
 			res.Fails = append(res.Fails, FailRec{Msg: f.Msg, Vector: x.vector(f.Model), Named: x.namedVector(f.Model), Observes: x.renderObsList(f.Obs, f.Model), Kind: "assert"})
